@@ -4,7 +4,7 @@ from ..core import parse_sx
 
 class C04(Prop):
     ID = "C04"
-    THEOREMS = ["C04_skipped_block_empty", "C04_query_blocks", "C04_query", "C04_no_miss", "C04_no_disjoint", "C04_accepted_sorted", "C04_refuted_unrepaired", "C04_file_query", "C04_file_no_miss_no_disjoint", "C04_history", "C04_history_from", "C04_written_file_query",
+    THEOREMS = ["C04_skipped_block_empty", "C04_query_blocks", "C04_query", "C04_no_miss", "C04_no_disjoint", "C04_accepted_sorted", "C04_refuted_unrepaired", "C04_file_query", "C04_file_no_miss_no_disjoint", "C04_history", "C04_history_from", "C04_written_file_query", "C04_written_file_narrow",
                 "C04_written_file_query_compressed", "C04_file_no_miss_no_disjoint_compressed", "C04_history_compressed"]
     RULE = ("bigBed cases as C02, biased to small index fan-outs (items_per_slot in {1,2,3}, block_size in {2,3}) and to layouts whose "
             "largest end is not the last entry's end at block level and at every index level; per chromosome ranges [s,e) with s,e from "
